@@ -196,6 +196,16 @@ def shard(ctx, arg):
             names = ["e%d" % j for j in range(rng.randrange(1, 6))]
             anns.append(W.Annotation("Lq/A%d;" % a, [(n, gen_value(rng)) for n in names], visibility=rng.choice([0, 1, 2])))
         c.annotations = anns
+        pad_n = 0
+        if k % 8 == 5:
+            # index-valued constants (string / type / field / method / enum) beyond 0x7F and 0x7FFF: the index is an UNSIGNED little-endian
+            # value of 1..4 bytes; a padding class sorting first pushes the string, field and method indices up
+            pad_n = 33000 if (not ctx.quick and k % 64 == 5) or (ctx.quick and idx == 0 and k == 5) else rng.choice([130, 200, 300])
+            pad = m.add_class("La/Pad;", W.ACC_PUBLIC | W.ACC_ABSTRACT)
+            for i in range(pad_n):
+                pad.add_field("A%05d" % i, "I", W.ACC_STATIC | W.ACC_PUBLIC)
+                pad.add_method("A%05d" % i, "V", (), W.ACC_PUBLIC | W.ACC_NATIVE, None)
+            ctx.count("big_index_cases")
         data, w = W.write_dex(m, want_writer=True)
         hexd = data.hex() if len(data) < 3000 else None
         ctx.ev()
